@@ -543,6 +543,33 @@ func (e *execEngine) buildTx(n *node, t []string) (pb.Transaction, bool, error) 
 			return nil, false, err
 		}
 		return tx, true, nil
+	case "ethx": // ethx <kind> signer to value gaslimit gasprice : the same, with the signature damaged after signing
+		// kind: flipr (one bit of R flipped) | zeror (R = 0) | highs (S replaced by N - S with the same V) | chain (V of another chain id)
+		if len(t) != 7 {
+			return nil, false, fmt.Errorf("bad ethx")
+		}
+		tx, err := n.ethTx(t[2], resolveAddr(t[3]), t[4], t[5], t[6])
+		if err != nil {
+			return nil, false, err
+		}
+		if et, ok := tx.(*ethtypes.EthTransaction); ok {
+			if inner, ok := et.Inner.(*ethtypes.LegacyTx); ok {
+				switch t[1] {
+				case "flipr":
+					inner.R = new(big.Int).Xor(inner.R, big.NewInt(1<<20))
+				case "zeror":
+					inner.R = big.NewInt(0)
+				case "highs":
+					nn, _ := new(big.Int).SetString("fffffffffffffffffffffffffffffffebaaedce6af48a03bbfd25e8cd0364141", 16)
+					inner.S = new(big.Int).Sub(nn, inner.S)
+				case "chain":
+					inner.V = new(big.Int).Add(inner.V, big.NewInt(2*7))
+				default:
+					return nil, false, fmt.Errorf("bad ethx kind")
+				}
+			}
+		}
+		return tx, true, nil
 	case "ibtp": // ibtp signer from to idx type timeout group proofkind
 		if len(t) < 9 {
 			return nil, false, fmt.Errorf("bad ibtp")
